@@ -75,7 +75,7 @@ def crcRawSpec (c : UInt32) (data : List UInt8) : UInt32 := data.foldl crcByteSp
 def crc32Spec (data : List UInt8) : UInt32 := crcRawSpec 0xFFFFFFFF data ^^^ 0xFFFFFFFF
 
 /-- The 256-entry table derived from the bit-serial definition. -/
-def crcTableSpec : Array UInt32 := Array.ofFn (n := 256) (fun i => crcBits8 (UInt32.ofNat i.val))
+def crcTableSpec : Array UInt32 := ((List.range 256).map (fun i => crcBits8 (UInt32.ofNat i))).toArray
 
 /-! ## CRC-32/IEEE, table-driven loop of `crc32IEEE` -/
 
